@@ -98,28 +98,29 @@ Theorem C16_general_basis_partial :
 Proof. exact general_basis_partial. Qed.
 Print Assumptions C16_general_basis_partial.
 
-(* the faithful model of compute_basis_rational (Q-nullspace, then astype(int)) returns
-   [[-1; 1]] for [4; 8] and [[0; 1]] for [4; 1/2]; neither is a relation *)
-Theorem C16_truncation_refuted :
+(* OLD RULE (before /repo a4c7460): the model of "Q-nullspace, then astype(int)" returns
+   [[-1; 1]] for [4; 8] and [[0; 1]] for [4; 1/2]; neither is a relation.  Statement about the old
+   rule only; the current code follows [model_compute_basis] below. *)
+Theorem C16_truncation_old_rule_refuted :
   (exists bs ps facts row,
       bs = [q_of 4 1; q_of 8 1] /\ check_factorisation ps facts bs = true /\
-      model_compute_basis bs (length ps) facts = [row] /\ row = [(-1)%Z; 1%Z] /\ ~ qrelation bs row)
+      old_model_compute_basis bs (length ps) facts = [row] /\ row = [(-1)%Z; 1%Z] /\ ~ qrelation bs row)
   /\
   (exists bs ps facts row,
       bs = [q_of 4 1; q_of 1 2] /\ check_factorisation ps facts bs = true /\
-      model_compute_basis bs (length ps) facts = [row] /\ row = [0%Z; 1%Z] /\ ~ qrelation bs row).
-Proof. exact truncation_refuted. Qed.
-Print Assumptions C16_truncation_refuted.
+      old_model_compute_basis bs (length ps) facts = [row] /\ row = [0%Z; 1%Z] /\ ~ qrelation bs row).
+Proof. exact truncation_old_rule_refuted. Qed.
+Print Assumptions C16_truncation_old_rule_refuted.
 
-(* the faithful model of is_trivially_empty declares the lattice of [3; 1] trivial although
-   (0, 1) is a relation: the numerator 1 is filtered away before the |numerator| > 1 test *)
-Theorem C16_trivially_empty_refuted :
+(* OLD RULE (before /repo 47f10be): the shortcut declares the lattice of [3; 1] trivial although
+   (0, 1) is a relation: the numerator 1 was filtered away before the |numerator| > 1 test *)
+Theorem C16_trivially_empty_old_rule_refuted :
   exists bs ps facts e,
     bs = [q_of 3 1; q_of 1 1] /\ check_factorisation ps facts bs = true /\
-    model_compute_basis bs (length ps) facts = [] /\
+    old_model_compute_basis bs (length ps) facts = [] /\
     length e = length bs /\ qrelation bs e /\ e <> zeros (R := Z_cring) (length bs).
-Proof. exact trivially_empty_refuted. Qed.
-Print Assumptions C16_trivially_empty_refuted.
+Proof. exact trivially_empty_old_rule_refuted. Qed.
+Print Assumptions C16_trivially_empty_old_rule_refuted.
 
 (* ---- non-vacuity (tests by computation, not theorems about Polar) ---- *)
 (* [4; 8]: the true basis [[-3; 2]] with its certificate is accepted by all three validators *)
@@ -155,3 +156,17 @@ Example C16_nonvacuous_golden :
   let bs : list (R * R) := [((mkq 1 2, mkq 1 2), (mkq (-1) 2, mkq 1 2)); ((mkq 1 2, mkq (-1) 2), (mkq (-1) 2, mkq (-1) 2))] in
   check_relations bs [[2; 2]]%Z = true /\ check_relations bs [[1; 1]]%Z = false.
 Proof. vm_compute. split; reflexivity. Qed.
+
+(* the model of the REPAIRED code (integer kernel, base-1 test) on the former counterexamples: its
+   output passes the relation validator (per-instance evaluation; that it does so for ALL inputs is
+   not proved — every run validates the real outputs instead) *)
+Example C16_repaired_model_on_old_counterexamples :
+  let b48 := [mkq 4 1; mkq 8 1] in
+  let b4h := [mkq 4 1; mkq 1 2] in
+  let b31 := [mkq 3 1; mkq 1 1] in
+  check_relations (R := Qc_cring) (map qbase b48) (model_compute_basis b48 1 [(false, [2%Z]); (false, [3%Z])]) = true /\
+  length (model_compute_basis b48 1 [(false, [2%Z]); (false, [3%Z])]) = 1%nat /\
+  check_relations (R := Qc_cring) (map qbase b4h) (model_compute_basis b4h 1 [(false, [2%Z]); (false, [(-1)%Z])]) = true /\
+  length (model_compute_basis b4h 1 [(false, [2%Z]); (false, [(-1)%Z])]) = 1%nat /\
+  model_compute_basis b31 1 [(false, [1%Z]); (false, [0%Z])] = [[0; 1]]%Z.
+Proof. vm_compute. repeat split. Qed.
